@@ -67,6 +67,8 @@ Qed.
 Lemma jws_stop c r : is_jws c = false -> jws (c :: r) = c :: r.
 Proof. intro H. unfold jws. rewrite (span_stop _ _ _ H). reflexivity. Qed.
 
+Ltac len_lia := repeat (rewrite ?app_length in *; cbn [length app] in * ); lia.
+
 Definition delim (rest : bytes) : Prop := rest = [] \/ exists c r, rest = c :: r /\ is_numchar c = false.
 
 Section GenParse.
@@ -249,5 +251,707 @@ Section GenParse.
     rewrite (rdstr_ok k _ HS). rewrite jws_stop by reflexivity. change (58 =? 58) with true. cbv iota.
     assert (Hd : delim (jr_members l false ++ 125 :: rest)).
     { destruct l as [|[k' y] l']; cbn [jr_members app]; apply delim_cons; reflexivity. }
-    cbn [jr_members app length] in Hf. rewrite <- !app_assoc in Hf. cbn [app] in Hf. rewrite !app_length in Hf. cbn [length] in Hf.
-    assert (length (jrender x ++ jr_members l false ++ 125 :: rest) < f)%nat. rewrite !app_length; cbn [length].  Show. Abort. End GenParse.
+    cbn [jr_members] in Hf.
+    rewrite (Hx f _ Wx Hd) by len_lia.
+    destruct l as [|[k' y] l'].
+    + cbn [jr_members app]. rewrite jws_stop by reflexivity. reflexivity.
+    + remember ((k', y) :: l') as l2. assert (Hl2 : jr_members l2 false = 44 :: jr_members l2 true).
+      { subst l2. reflexivity. }
+      rewrite Hl2. cbn [app]. rewrite jws_stop by reflexivity. change (44 =? 44) with true. cbv iota.
+      rewrite (IH f rest); [reflexivity|subst l2; discriminate|exact Wl|].
+      rewrite Hl2 in Hf. len_lia.
+  Qed.
+
+  Lemma jv_value_render v : Pv v.
+  Proof.
+    induction v as [s|tok| | | |l IH|l IH] using jval_ind'; intros fuel rest HW Hd Hf;
+      (destruct fuel as [|f]; [cbn in Hf; lia|]).
+    - cbn [jrender W] in *. unfold json_esc at 1. cbn [app]. rewrite jv_value_S. cbv zeta. rewrite jws_stop by reflexivity.
+      change (34 =? 34) with true. cbv iota.
+      change (34 :: (json_esc_body s ++ [34]) ++ rest) with (json_esc s ++ rest).
+      rewrite (rdstr_ok s rest HW). reflexivity.
+    - cbn [jrender W] in *. destruct HW as (Hn & Hc & Hne). destruct tok as [|c t]; [contradiction|].
+      pose proof Hc as Hc'. cbn [forallb] in Hc'. apply andb_true_iff in Hc'. destruct Hc' as [Hc0 _].
+      destruct (numchar_facts c Hc0) as (Hws & H34 & H123 & H91 & H116 & H102 & H110 & _).
+      cbn [app]. rewrite jv_value_S. cbv zeta. rewrite jws_stop by exact Hws.
+      apply N.eqb_neq in H34, H123, H91. rewrite H34, H123, H91.
+      assert (E1 : starts_with true_b (c :: t ++ rest) = false).
+      { cbn [true_b starts_with]. apply N.eqb_neq in H116. rewrite (N.eqb_sym 116 c), H116. reflexivity. }
+      assert (E2 : starts_with false_b (c :: t ++ rest) = false).
+      { cbn [false_b starts_with]. apply N.eqb_neq in H102. rewrite (N.eqb_sym 102 c), H102. reflexivity. }
+      assert (E3 : starts_with null_b (c :: t ++ rest) = false).
+      { cbn [null_b starts_with]. apply N.eqb_neq in H110. rewrite (N.eqb_sym 110 c), H110. reflexivity. }
+      rewrite E1, E2, E3.
+      assert (Es : span is_numchar ((c :: t) ++ rest) = (c :: t, rest)).
+      { destruct Hd as [->|(c' & r' & -> & Hc')]; [rewrite app_nil_r; apply span_app_nil, Hc|apply span_app; assumption]. }
+      cbn [app] in Es. rewrite Es, Hn. reflexivity.
+    - cbn [jrender true_b app]. rewrite jv_value_S. cbv zeta. rewrite jws_stop by reflexivity. reflexivity.
+    - cbn [jrender false_b app]. rewrite jv_value_S. cbv zeta. rewrite jws_stop by reflexivity. reflexivity.
+    - cbn [jrender null_b app]. rewrite jv_value_S. cbv zeta. rewrite jws_stop by reflexivity. reflexivity.
+    - rewrite jrender_arr in Hf |- *. rewrite W_arr in HW. cbn [app]. rewrite jv_value_S. cbv zeta. rewrite jws_stop by reflexivity.
+      change (91 =? 34) with false. change (91 =? 123) with false. change (91 =? 91) with true. cbv iota.
+      rewrite <- app_assoc. cbn [app].
+      destruct l as [|x l].
+      + cbn [jr_elems app]. rewrite jws_stop by reflexivity. reflexivity.
+      + inversion IH as [|? ? Hx Hl]; subst. inversion HW as [|? ? Wx Wl]; subst.
+        cbn [jr_elems app]. rewrite <- app_assoc.
+        destruct (jrender_head x Wx) as (c & r & Ec & Hws & H93 & _).
+        rewrite Ec at 1. cbn [app]. rewrite jws_stop by exact Hws. apply N.eqb_neq in H93. rewrite H93.
+        change (c :: r ++ jr_elems l false ++ 93 :: rest) with ((c :: r) ++ jr_elems l false ++ 93 :: rest).
+        rewrite <- Ec.
+        assert (Hd2 : delim (jr_elems l false ++ 93 :: rest)).
+        { destruct l as [|y l']; cbn [jr_elems app]; apply delim_cons; reflexivity. }
+        cbn [jr_elems app length] in Hf. rewrite <- !app_assoc in Hf. cbn [app] in Hf.
+        rewrite (Hx f _ Wx Hd2) by (rewrite app_length in *; lia).
+        rewrite (jv_elems_render l Hl f rest Wl); [reflexivity|].
+        rewrite !app_length in *. pose proof (jrender_nonempty x Wx). cbn [length] in *. lia.
+    - rewrite jrender_obj in Hf |- *. rewrite W_obj in HW. cbn [app]. rewrite jv_value_S. cbv zeta. rewrite jws_stop by reflexivity.
+      change (123 =? 34) with false. change (123 =? 123) with true. cbv iota.
+      rewrite <- app_assoc. cbn [app].
+      destruct l as [|[k x] l].
+      + cbn [jr_members app]. rewrite jws_stop by reflexivity. reflexivity.
+      + assert (Eh : jr_members ((k, x) :: l) true ++ 125 :: rest = 34 :: tl (jr_members ((k, x) :: l) true ++ 125 :: rest))
+          by reflexivity.
+        rewrite Eh. rewrite jws_stop by reflexivity. change (34 =? 125) with false. cbv iota. rewrite <- Eh.
+        rewrite (jv_members_render _ IH f rest); [reflexivity|discriminate|exact HW|].
+        cbn [length app] in Hf. rewrite <- app_assoc in Hf. cbn [app] in Hf. lia.
+  Qed.
+
+  Theorem jv_text_render v : W v -> jv_text rdstr (jrender v) = Some v.
+  Proof.
+    intro HW. unfold jv_text.
+    pose proof (jv_value_render v (S (length (jrender v))) [] HW (or_introl eq_refl)) as H.
+    rewrite app_nil_r in H. rewrite H by lia. reflexivity.
+  Qed.
+End GenParse.
+
+(* ====================================================================================== *)
+(* the two string readers                                                                  *)
+(* ====================================================================================== *)
+Definition SV_ly (s : bytes) : Prop := lexable s /\ bytes_ok s = true.
+
+Lemma ly_rdstr_ok s rest : SV_ly s -> ly_rdstr (json_esc s ++ rest) = Some (s, rest).
+Proof. intros [H1 H2]. unfold ly_rdstr. rewrite (json_quoted_roundtrip s rest H1 H2). reflexivity. Qed.
+
+(* the standard side: cutting the token at its closing quotation mark *)
+Lemma scan_plain f c r acc : c <> 34 -> c <> 92 -> scan_jstring (S f) (c :: r) acc = scan_jstring f r (c :: acc).
+Proof. intros H1 H2. cbn [scan_jstring]. apply N.eqb_neq in H1, H2. rewrite H1, H2. reflexivity. Qed.
+Lemma scan_esc f e r acc : scan_jstring (S f) (92 :: e :: r) acc = scan_jstring f r (e :: 92 :: acc).
+Proof. reflexivity. Qed.
+
+Lemma hexdig_up_plain d : d < 16 -> hexdig_up d <> 34 /\ hexdig_up d <> 92.
+Proof. intro H. unfold hexdig_up. destruct (d <? 10) eqn:E; lia. Qed.
+
+Lemma scan_printed s : Forall (fun b => b <> 0) s -> forall fuel rest acc,
+  (length (json_esc_body s) < fuel)%nat ->
+  scan_jstring fuel (json_esc_body s ++ 34 :: rest) acc = Some (rev acc ++ json_esc_body s, rest).
+Proof.
+  induction 1 as [|b s Hb _ IH]; intros fuel rest acc Hf.
+  - destruct fuel as [|f]; [cbn in Hf; lia|]. cbn [json_esc_body app scan_jstring]. change (34 =? 34) with true. cbv iota.
+    rewrite app_nil_r. reflexivity.
+  - rewrite json_esc_body_cons in Hf |- * by exact Hb. rewrite json_esc_byte_spec in Hf |- *.
+    rewrite app_length in Hf.
+    assert (Fin : forall chunk, rev (rev chunk ++ acc) ++ json_esc_body s = rev acc ++ chunk ++ json_esc_body s).
+    { intro chunk. rewrite rev_app_distr, rev_involutive, <- app_assoc. reflexivity. }
+    destruct (b =? 34) eqn:E34.
+    { cbn [app length] in Hf |- *. destruct fuel as [|f]; [lia|]. rewrite scan_esc. rewrite IH by lia.
+      cbn [rev app]. rewrite <- ?app_assoc. reflexivity. }
+    destruct (b =? 92) eqn:E92.
+    { cbn [app length] in Hf |- *. destruct fuel as [|f]; [lia|]. rewrite scan_esc. rewrite IH by lia.
+      cbn [rev app]. rewrite <- ?app_assoc. reflexivity. }
+    destruct (b =? 13) eqn:E13.
+    { cbn [app length] in Hf |- *. destruct fuel as [|f]; [lia|]. rewrite scan_esc. rewrite IH by lia.
+      cbn [rev app]. rewrite <- ?app_assoc. reflexivity. }
+    destruct (b =? 9) eqn:E9.
+    { cbn [app length] in Hf |- *. destruct fuel as [|f]; [lia|]. rewrite scan_esc. rewrite IH by lia.
+      cbn [rev app]. rewrite <- ?app_assoc. reflexivity. }
+    destruct (is_cntrl b) eqn:Ec.
+    { cbn [app length] in Hf |- *.
+      destruct fuel as [|f]; [lia|]. rewrite scan_esc.
+      pose proof (hexdig_up_plain ((b / 4096) mod 16) ltac:(apply N.mod_upper_bound; discriminate)) as [A1 A2].
+      pose proof (hexdig_up_plain ((b / 256) mod 16) ltac:(apply N.mod_upper_bound; discriminate)) as [B1 B2].
+      pose proof (hexdig_up_plain ((b / 16) mod 16) ltac:(apply N.mod_upper_bound; discriminate)) as [C1 C2].
+      pose proof (hexdig_up_plain (b mod 16) ltac:(apply N.mod_upper_bound; discriminate)) as [D1 D2].
+      destruct f as [|f]; [lia|]. rewrite scan_plain by assumption.
+      destruct f as [|f]; [lia|]. rewrite scan_plain by assumption.
+      destruct f as [|f]; [lia|]. rewrite scan_plain by assumption.
+      destruct f as [|f]; [lia|]. rewrite scan_plain by assumption.
+      rewrite IH by lia.
+      cbn [rev app]. rewrite <- ?app_assoc. reflexivity. }
+    cbn [app length] in Hf |- *. destruct fuel as [|f]; [lia|].
+    rewrite scan_plain by (apply N.eqb_neq; assumption). rewrite IH by lia. cbn [rev app]. rewrite <- ?app_assoc. reflexivity.
+Qed.
+
+Lemma utf8_nonul_nozero s : utf8_nonul s -> Forall (fun b => b <> 0) s.
+Proof.
+  intros (cps & Hv & ->). induction cps as [|cp cps IH]; [constructor|].
+  cbn [forallb] in Hv. apply andb_true_iff in Hv. destruct Hv as [Hc Hr]. cbn [flat_map]. apply Forall_app. split; [|apply IH, Hr].
+  unfold valid_cp in Hc. apply andb_true_iff in Hc. destruct Hc as [Hs Hz].
+  destruct (N.lt_ge_cases cp 128) as [Hlow|Hhigh].
+  - rewrite utf8_encode_ascii by exact Hlow. constructor; [lia|constructor].
+  - eapply Forall_impl; [|apply utf8_encode_high, Hhigh]. cbn beta. intros; lia.
+Qed.
+
+Lemma std_rdstr_ok s rest : utf8_nonul s -> std_rdstr (json_esc s ++ rest) = Some (s, rest).
+Proof.
+  intro Hs. unfold std_rdstr, json_esc. cbn [app]. change (34 =? 34) with true. cbv iota.
+  rewrite <- app_assoc. cbn [app].
+  rewrite (scan_printed s (utf8_nonul_nozero s Hs) _ rest []) by (rewrite app_length; cbn [length]; lia).
+  cbn [rev app]. change (34 :: json_esc_body s ++ [34]) with (json_esc s).
+  rewrite (json_string_std_proof s Hs). reflexivity.
+Qed.
+
+(* ====================================================================================== *)
+(* the RFC 7951 value of a forest is well formed for the generic reader                    *)
+(* ====================================================================================== *)
+Definition jkey_char (c : N) : bool := is_ncname_char c || (c =? 58) || (c =? 64).
+
+Lemma jkey_esc_body k : forallb jkey_char k = true -> json_esc_body k = k.
+Proof.
+  induction k as [|c k IH]; intro H; [reflexivity|]. cbn [forallb] in H. apply andb_true_iff in H. destruct H as [Hc Hk].
+  assert (Hc' : 45 <= c /\ c <= 122 /\ c <> 92).
+  { unfold jkey_char, is_ncname_char, is_ncname_start, is_alpha, is_digit in Hc. lia. }
+  rewrite json_esc_body_cons by lia. rewrite (IH Hk), json_esc_byte_spec.
+  assert (E1 : (c =? 34) = false) by lia. assert (E2 : (c =? 92) = false) by lia.
+  assert (E3 : (c =? 13) = false) by lia. assert (E4 : (c =? 9) = false) by lia.
+  assert (E5 : is_cntrl c = false) by (unfold is_cntrl; lia).
+  rewrite E1, E2, E3, E4, E5. reflexivity.
+Qed.
+
+Lemma jkey_esc k : forallb jkey_char k = true -> json_esc k = 34 :: k ++ [34].
+Proof. intro H. unfold json_esc. rewrite (jkey_esc_body k H). reflexivity. Qed.
+
+Lemma ncname_jkey nm : ncname_ok nm = true -> forallb jkey_char nm = true.
+Proof.
+  intro H. destruct (ncname_ok_chars nm H) as [Hc _]. rewrite forallb_forall in *. intros c Hin.
+  unfold jkey_char. rewrite (Hc c Hin). reflexivity.
+Qed.
+
+Lemma forallb_app {A} (p : A -> bool) a b : forallb p (a ++ b) = forallb p a && forallb p b.
+Proof. induction a as [|x a IH]; [reflexivity|]. cbn [app forallb]. rewrite IH, andb_assoc. reflexivity. Qed.
+
+Lemma group_runs_in {A} (l : list (dnode * A)) g x :
+  In g (group_runs l) -> In x (snd g) -> In x l /\ d_sid (fst x) = fst g.
+Proof.
+  revert g. induction l as [|y l IH]; intros g Hg Hx; [contradiction|]. cbn [group_runs] in Hg.
+  destruct (group_runs l) as [|[s run] gs] eqn:E.
+  - destruct Hg as [<-|[]]. cbn [snd fst] in *. destruct Hx as [<-|[]]. split; [left; reflexivity|reflexivity].
+  - destruct (s =? d_sid (fst y)) eqn:Es.
+    + apply N.eqb_eq in Es. destruct Hg as [<-|Hg].
+      * cbn [snd fst] in *. destruct Hx as [<-|Hx]; [split; [left; reflexivity|symmetry; exact Es]|].
+        destruct (IH (s, run) (or_introl eq_refl) Hx) as [H1 H2]. split; [right; exact H1|exact H2].
+      * destruct (IH g (or_intror Hg) Hx) as [H1 H2]. split; [right; exact H1|exact H2].
+    + destruct Hg as [<-|Hg].
+      * cbn [snd fst] in *. destruct Hx as [<-|[]]. split; [left; reflexivity|reflexivity].
+      * destruct (IH g Hg Hx) as [H1 H2]. split; [right; exact H1|exact H2].
+Qed.
+
+Lemma group_runs_nonempty {A} (l : list (dnode * A)) g : In g (group_runs l) -> snd g <> [].
+Proof.
+  revert g. induction l as [|y l IH]; intros g Hg; [contradiction|]. cbn [group_runs] in Hg.
+  destruct (group_runs l) as [|[s run] gs] eqn:E.
+  - destruct Hg as [<-|[]]. discriminate.
+  - destruct (s =? d_sid (fst y)).
+    + destruct Hg as [<-|Hg]; [discriminate|]. apply IH. right. exact Hg.
+    + destruct Hg as [<-|Hg]; [discriminate|]. apply IH. exact Hg.
+Qed.
+
+Definition jterm_ok (SV : bytes -> Prop) (k : jkind) (v : bytes) : Prop :=
+  match k with
+  | JStr => SV v
+  | JNum => jnumber_ok v = true /\ forallb is_numchar v = true /\ v <> []
+  | JBool => v = true_b \/ v = false_b
+  | JEmpty => v = []
+  end.
+
+Section JsonData.
+  Variable sch : schema.
+  Variable t : doctabs.
+  Variable jk : list (sid * jkind).
+  Variable SV : bytes -> Prop.
+  Hypothesis Htabs : tabs_okb sch t = true.
+  Hypothesis SV_key : forall k, forallb jkey_char k = true -> SV k.
+
+  Let Hm : mods_okb t = true := Hmods sch t Htabs.
+  Let Hn : names_okb sch t = true := Hnames sch t Htabs.
+
+  (* the data hypotheses of the JSON theorems: as XmlDocP.DocN with the values of terms constrained by their JSON class *)
+  Fixpoint JDocN (n : dnode) {struct n} : Prop :=
+    match n with
+    | DN s v d m ch =>
+        kind_of sch s <> KAny /\ (if is_term sch s then jterm_ok SV (jkind_of jk s) v else v = []) /\
+        Forall (meta_ok t SV) m /\ NoDup (map fst m) /\
+        (fix all (l : list dnode) : Prop := match l with [] => True | x :: l' => JDocN x /\ all l' end) ch
+    end.
+
+  Lemma JDocN_unfold s v d m ch :
+    JDocN (DN s v d m ch) <->
+    kind_of sch s <> KAny /\ (if is_term sch s then jterm_ok SV (jkind_of jk s) v else v = []) /\
+    Forall (meta_ok t SV) m /\ NoDup (map fst m) /\ Forall JDocN ch.
+  Proof.
+    cbn [JDocN].
+    assert (HF : forall l, (fix all (l : list dnode) : Prop :=
+                              match l with [] => True | x :: l' => JDocN x /\ all l' end) l <-> Forall JDocN l).
+    { induction l as [|x l IH]; [split; [constructor|trivial]|]. split.
+      - intros [H1 H2]. constructor; [assumption|apply IH; assumption].
+      - intro H. inversion H; subst. split; [assumption|apply IH; assumption]. }
+    rewrite HF. reflexivity.
+  Qed.
+
+  Lemma key_ok_chars k : forallb jkey_char k = true -> key_ok SV k.
+  Proof. intro H. split; [apply SV_key, H|apply jkey_esc, H]. Qed.
+
+  Lemma W_term k v : jterm_ok SV k v -> W SV (jval_of_term k v).
+  Proof.
+    destruct k; cbn [jterm_ok jval_of_term].
+    - intro H. exact H.
+    - intros (H1 & H2 & H3). destruct v; [contradiction|]. cbn [W]. repeat split; assumption.
+    - intros [->| ->]; vm_compute; exact I.
+    - intros ->. cbn [W]. split; exact I.
+  Qed.
+
+  Lemma meta_key_chars kv : meta_ok t SV kv -> forallb jkey_char (fst kv) = true /\ SV (snd kv).
+  Proof.
+    intros (Hv & m0 & mi & nm & Hin & Hnm & Ek). split; [|exact Hv]. rewrite Ek.
+    pose proof (mods_ok_entry _ _ _ Hm Hin) as MF.
+    rewrite forallb_app. cbn [forallb]. rewrite (ncname_jkey _ (mf_name _ _ _ MF)), (ncname_jkey _ Hnm). reflexivity.
+  Qed.
+
+  Lemma W_meta_obj m : Forall (meta_ok t SV) m -> W SV (jmeta_obj m).
+  Proof.
+    intro H. unfold jmeta_obj. rewrite W_obj. apply Forall_forall. intros kx Hin. apply in_map_iff in Hin.
+    destruct Hin as (kv & <- & Hkv). rewrite Forall_forall in H. destruct (meta_key_chars kv (H kv Hkv)) as [H1 H2].
+    cbn [fst snd W]. split; [apply key_ok_chars, H1|exact H2].
+  Qed.
+
+  Lemma mname_chars pm s i : lookup sch s = Some i -> forallb jkey_char (mname t pm s) = true.
+  Proof.
+    intro Hl. pose proof (names_ok_entry _ _ _ _ Hn Hl) as NF. destruct (nf_mod _ _ _ NF) as (mi & Hin & Emi).
+    pose proof (mods_ok_entry _ _ _ Hm Hin) as MF.
+    unfold mname. rewrite forallb_app, (ncname_jkey _ (nf_name _ _ _ NF)), andb_true_r.
+    destruct (match pm with None => true | Some m => negb (m =? node_mod t s) end); [|reflexivity].
+    rewrite forallb_app, Emi, (ncname_jkey _ (mf_name _ _ _ MF)). reflexivity.
+  Qed.
+
+  Definition ElemOK (x : dnode * jval) : Prop :=
+    (exists i, lookup sch (d_sid (fst x)) = Some i) /\ W SV (snd x) /\ Forall (meta_ok t SV) (d_meta (fst x)).
+
+  Lemma assemble_W pm l : Forall ElemOK l ->
+    Forall (fun kx : bytes * jval => key_ok SV (fst kx) /\ W SV (snd kx)) (assemble sch t pm l).
+  Proof.
+    intro HE. unfold assemble. apply Forall_forall. intros kx Hkx. apply in_flat_map in Hkx.
+    destruct Hkx as ([s run] & Hg & Hkx).
+    assert (Hrun : forall x, In x run -> ElemOK x /\ d_sid (fst x) = s).
+    { intros x Hx. destruct (group_runs_in l (s, run) x Hg Hx) as [H1 H2]. rewrite Forall_forall in HE. split; [apply HE, H1|exact H2]. }
+    assert (Hkey : forall x, In x run -> key_ok SV (mname t pm s) /\ key_ok SV (64 :: mname t pm s)).
+    { intros x Hx. destruct (Hrun x Hx) as [((i & Hl) & _) Es]. rewrite Es in Hl.
+      pose proof (mname_chars pm s i Hl) as Hc. split; apply key_ok_chars; [exact Hc|]. cbn [forallb]. rewrite Hc. reflexivity. }
+    assert (Wrun : Forall (W SV) (map snd run)).
+    { apply Forall_forall. intros v Hv. apply in_map_iff in Hv. destruct Hv as (x & <- & Hx). apply (Hrun x Hx). }
+    assert (Wmeta : Forall (W SV) (map (meta_or_null) run)).
+    { apply Forall_forall. intros v Hv. apply in_map_iff in Hv. destruct Hv as (x & <- & Hx).
+      unfold meta_or_null. destruct (Hrun x Hx) as [(_ & _ & Hmx) _].
+      destruct (d_meta (fst x)) eqn:E; [exact I|]. rewrite <- E. apply W_meta_obj. rewrite E. exact Hmx. }
+    cbn [group_members] in Hkx.
+    destruct (kind_of sch s).
+    - apply in_map_iff in Hkx. destruct Hkx as (x & <- & Hx). cbn [fst snd]. split; [apply (Hkey x Hx)|apply (Hrun x Hx)].
+    - apply in_flat_map in Hkx. destruct Hkx as (x & Hx & Hkx). destruct (Hrun x Hx) as [(_ & Wx & Hmx) _].
+      destruct Hkx as [<-|Hkx]; [cbn [fst snd]; split; [apply (Hkey x Hx)|exact Wx]|].
+      destruct (has_meta x); [|contradiction]. destruct Hkx as [<-|[]]. cbn [fst snd].
+      split; [apply (Hkey x Hx)|apply W_meta_obj, Hmx].
+    - destruct run as [|x0 run']; [exfalso; apply (group_runs_nonempty l _ Hg); reflexivity|].
+      destruct Hkx as [<-|Hkx]; [cbn [fst snd]; split; [apply (Hkey x0 (or_introl eq_refl))|rewrite W_arr; exact Wrun]|].
+      destruct (existsb has_meta (x0 :: run')); [|contradiction]. destruct Hkx as [<-|[]]. cbn [fst snd].
+      split; [apply (Hkey x0 (or_introl eq_refl))|rewrite W_arr; exact Wmeta].
+    - destruct run as [|x0 run']; [exfalso; apply (group_runs_nonempty l _ Hg); reflexivity|].
+      destruct Hkx as [<-|[]]. cbn [fst snd]. split; [apply (Hkey x0 (or_introl eq_refl))|rewrite W_arr; exact Wrun].
+    - apply in_map_iff in Hkx. destruct Hkx as (x & <- & Hx). cbn [fst snd]. split; [apply (Hkey x Hx)|apply (Hrun x Hx)].
+  Qed.
+
+  Lemma jnode_val_unfold s v d m ch :
+    jnode_val sch t jk (DN s v d m ch) =
+    match kind_of sch s with
+    | KLeaf | KLeafList => jval_of_term (jkind_of jk s) v
+    | KCont _ | KList =>
+        JVobj ((match m with [] => [] | _ => [([64], jmeta_obj m)] end) ++
+               assemble sch t (Some (node_mod t s)) (map (fun c => (c, jnode_val sch t jk c)) ch))
+    | KAny => JVobj []
+    end.
+  Proof. reflexivity. Qed.
+
+  Lemma Placed_lookup p n : Placed sch p n -> exists i, lookup sch (d_sid n) = Some i /\ si_parent i = p.
+  Proof. destruct n as [s v d m ch]. rewrite Placed_unfold. intros ((i & Hl & Hp & _) & _). exists i. split; assumption. Qed.
+
+  Lemma JDocN_meta n : JDocN n -> Forall (meta_ok t SV) (d_meta n).
+  Proof. destruct n as [s v d m ch]. rewrite JDocN_unfold. intros (_ & _ & H & _). exact H. Qed.
+
+  Lemma children_ElemOK s ch :
+    Forall (fun n => forall p, Placed sch p n -> JDocN n -> W SV (jnode_val sch t jk n)) ch ->
+    Forall (Placed sch (Some s)) ch -> Forall JDocN ch ->
+    Forall ElemOK (map (fun c => (c, jnode_val sch t jk c)) ch).
+  Proof.
+    intros IH HP HD. apply Forall_forall. intros x Hx. apply in_map_iff in Hx. destruct Hx as (c & <- & Hc).
+    rewrite Forall_forall in IH, HP, HD. unfold ElemOK. cbn [fst snd].
+    destruct (Placed_lookup _ _ (HP c Hc)) as (i & Hl & _).
+    split; [exists i; exact Hl|]. split; [apply (IH c Hc (Some s)); auto|apply JDocN_meta; auto].
+  Qed.
+
+  Lemma W_node n : forall p, Placed sch p n -> JDocN n -> W SV (jnode_val sch t jk n).
+  Proof.
+    induction n as [s v d m ch IH] using dnode_ind'. intros p HP HD.
+    rewrite Placed_unfold in HP. destruct HP as ((i & Hl & Hpar & Hterm) & HPch).
+    rewrite JDocN_unfold in HD. destruct HD as (Hany & Hval & Hmeta & Hnd & HDch).
+    rewrite jnode_val_unfold.
+    assert (Inner : W SV (JVobj ((match m with [] => [] | _ => [([64], jmeta_obj m)] end) ++
+               assemble sch t (Some (node_mod t s)) (map (fun c => (c, jnode_val sch t jk c)) ch)))).
+    { rewrite W_obj. apply Forall_app. split.
+      - destruct m as [|kv m']; [constructor|]. constructor; [|constructor]. cbn [fst snd].
+        split; [apply key_ok_chars; reflexivity|apply W_meta_obj, Hmeta].
+      - apply assemble_W. apply (children_ElemOK s ch IH HPch HDch). }
+    unfold is_term, kind_of, sget in *. rewrite Hl in *.
+    destruct (si_kind i); cbn [is_term_kind] in Hval; try exact Inner; try (apply W_term; exact Hval).
+    exfalso. apply Hany. reflexivity.
+  Qed.
+
+  Lemma W_tree f : Forall (Placed sch None) f -> Forall JDocN f -> W SV (json_tree sch t jk f).
+  Proof.
+    intros HP HD. unfold json_tree. rewrite W_obj. apply assemble_W.
+    apply Forall_forall. intros x Hx. apply in_map_iff in Hx. destruct Hx as (c & <- & Hc).
+    rewrite Forall_forall in HP, HD. unfold ElemOK. cbn [fst snd].
+    destruct (Placed_lookup _ _ (HP c Hc)) as (i & Hl & _).
+    split; [exists i; exact Hl|]. split; [apply (W_node c None); auto|apply JDocN_meta; auto].
+  Qed.
+
+  (* the generic reader, with any string reader that inverts json_print_string on the class SV, reads the rendering of
+     the RFC 7951 value of a forest back as that value *)
+  Theorem jv_text_doc rdstr f :
+    (forall s rest, SV s -> rdstr (json_esc s ++ rest) = Some (s, rest)) ->
+    Forall (Placed sch None) f -> Forall JDocN f ->
+    jv_text rdstr (json_doc sch t jk f) = Some (json_tree sch t jk f).
+  Proof. intros Hr HP HD. unfold json_doc. apply (jv_text_render SV rdstr Hr), W_tree; assumption. Qed.
+End JsonData.
+
+(* ====================================================================================== *)
+(* the schema-directed conversion of the RFC 7951 value gives the forest back              *)
+(* ====================================================================================== *)
+Section ConvUnfold.
+  Variable sch : schema.
+  Variable t : doctabs.
+  Variable jk : list (sid * jkind).
+  (* the recursive calls of conv_obj as a parameter, so that its member loop can be named *)
+  Variable rec : option sid -> option N -> jval -> option (list (bytes * bytes) * forest).
+
+  Fixpoint conv_each (sd : sid) (md : option N) (os : list jval) : option forest :=
+    match os with
+    | [] => Some []
+    | o :: os' =>
+        match rec (Some sd) md o, conv_each sd md os' with
+        | Some (mm, ch), Some f => Some (DN sd [] false mm ch :: f)
+        | _, _ => None
+        end
+    end.
+
+  Fixpoint conv_go (p : option sid) (pm : option N) (l : list (bytes * jval)) {struct l} : option forest :=
+    match l with
+    | [] => Some []
+    | (k, x) :: r =>
+        match resolve_member sch t p pm k with
+        | None => None
+        | Some sd =>
+            let md := Some (node_mod t sd) in
+            match kind_of sch sd with
+            | KLeaf =>
+                match term_of_jval (jkind_of jk sd) x with
+                | None => None
+                | Some tv =>
+                    match r with
+                    | (k2, x2) :: r' =>
+                        if beq_bytes k2 (64 :: k) then
+                          match metas_of_jval x2, conv_go p pm r' with
+                          | Some mm, Some f => Some (DN sd tv false mm [] :: f)
+                          | _, _ => None
+                          end
+                        else match conv_go p pm r with Some f => Some (DN sd tv false [] [] :: f) | None => None end
+                    | [] => Some [DN sd tv false [] []]
+                    end
+                end
+            | KCont _ =>
+                match rec (Some sd) md x, conv_go p pm r with
+                | Some (mm, ch), Some f => Some (DN sd [] false mm ch :: f)
+                | _, _ => None
+                end
+            | KList =>
+                match x with
+                | JVarr objs =>
+                    match conv_each sd md objs, conv_go p pm r with
+                    | Some a, Some f => Some (a ++ f)
+                    | _, _ => None
+                    end
+                | _ => None
+                end
+            | KLeafList =>
+                match x with
+                | JVarr vals =>
+                    match r with
+                    | (k2, JVarr ms) :: r' =>
+                        if beq_bytes k2 (64 :: k) then
+                          match zip_leaflist jk sd vals ms, conv_go p pm r' with
+                          | Some a, Some f => Some (a ++ f)
+                          | _, _ => None
+                          end
+                        else match zip_leaflist jk sd vals [], conv_go p pm r with
+                             | Some a, Some f => Some (a ++ f)
+                             | _, _ => None
+                             end
+                    | _ => match zip_leaflist jk sd vals [], conv_go p pm r with
+                           | Some a, Some f => Some (a ++ f)
+                           | _, _ => None
+                           end
+                    end
+                | _ => None
+                end
+            | KAny => None
+            end
+        end
+    end.
+End ConvUnfold.
+
+Lemma conv_obj_unfold sch t jk p pm l0 :
+  conv_obj sch t jk p pm (JVobj l0) =
+  match l0 with
+  | (k, x) :: r =>
+      if beq_bytes k [64] then
+        match metas_of_jval x, conv_go sch t jk (conv_obj sch t jk) p pm r with
+        | Some mm, Some f => Some (mm, f)
+        | _, _ => None
+        end
+      else match conv_go sch t jk (conv_obj sch t jk) p pm l0 with Some f => Some ([], f) | None => None end
+  | [] => Some ([], [])
+  end.
+Proof.
+  cbn [conv_obj].
+  match goal with |- context[(fix go (l : list (bytes * jval)) {struct l} : option forest := _)] =>
+    set (go := (fix go (l : list (bytes * jval)) {struct l} : option forest := _)) end.
+  assert (E : forall n l, (length l <= n)%nat -> go l = conv_go sch t jk (conv_obj sch t jk) p pm l).
+  { induction n as [|n IH]; intros l Hl.
+    - destruct l; [reflexivity|cbn in Hl; lia].
+    - destruct l as [|[k x] r]; [reflexivity|].
+      unfold go at 1. cbn fix beta iota. fold go. cbn [conv_go]. cbn [length] in Hl.
+      destruct (resolve_member sch t p pm k) as [sd|]; [|reflexivity]. cbv zeta.
+      assert (Er : go r = conv_go sch t jk (conv_obj sch t jk) p pm r) by (apply IH; lia).
+      destruct (kind_of sch sd).
+      + rewrite Er. reflexivity.
+      + destruct (term_of_jval (jkind_of jk sd) x); [|reflexivity].
+        destruct r as [|[k2 x2] r']; [reflexivity|].
+        destruct (beq_bytes k2 (64 :: k)); [|rewrite Er; reflexivity].
+        rewrite (IH r') by (cbn [length] in Hl; lia). reflexivity.
+      + destruct x; try reflexivity.
+        destruct r as [|[k2 x2] r']; [rewrite Er; reflexivity|].
+        destruct x2; try (rewrite Er; reflexivity).
+        destruct (beq_bytes k2 (64 :: k)); [|rewrite Er; reflexivity].
+        rewrite (IH r') by (cbn [length] in Hl; lia). reflexivity.
+      + destruct x; try reflexivity. rewrite Er.
+        match goal with |- context[(fix each (os : list jval) {struct os} : option forest := _)] =>
+          set (each := (fix each (os : list jval) {struct os} : option forest := _)) end.
+        assert (Ee : forall os, each os = conv_each (conv_obj sch t jk) sd (Some (node_mod t sd)) os).
+        { induction os as [|o os IHo]; [reflexivity|]. unfold each at 1. cbn fix beta iota. fold each. cbn [conv_each].
+          rewrite IHo. reflexivity. }
+        rewrite Ee. reflexivity.
+      + reflexivity. }
+  destruct l0 as [|[k x] r]; [reflexivity|].
+  rewrite (E _ r (Nat.le_refl _)), (E _ ((k, x) :: r) (Nat.le_refl _)). reflexivity.
+Qed.
+
+Lemma has_colon_app a b : has_colon (a ++ 58 :: b) = true.
+Proof. induction a as [|x a IH]; cbn [app has_colon]; [reflexivity|]. rewrite IH. apply orb_true_r. Qed.
+
+Lemma has_colon_ncname nm : ncname_ok nm = true -> has_colon nm = false.
+Proof.
+  intro H. destruct (ncname_ok_chars nm H) as [Hc _]. clear H. induction nm as [|c r IH]; [reflexivity|].
+  cbn [forallb] in Hc. apply andb_true_iff in Hc. destruct Hc as [H1 H2]. cbn [has_colon]. rewrite (IH H2), orb_false_r.
+  destruct (c =? 58) eqn:E; [apply N.eqb_eq in E; subst c; discriminate H1|reflexivity].
+Qed.
+
+Lemma mod_id_by_name_rel l nm :
+  match mod_id_by_name l nm, mod_by_name l nm with
+  | Some m', Some mi' => In (m', mi') l
+  | None, None => True
+  | _, _ => False
+  end.
+Proof.
+  induction l as [|[a x] r IH]; cbn [mod_id_by_name mod_by_name]; [exact I|].
+  destruct (beq_bytes (mi_name x) nm); [left; reflexivity|].
+  destruct (mod_id_by_name r nm), (mod_by_name r nm); try exact IH. right. exact IH.
+Qed.
+
+Lemma mod_id_by_name_ok t m mi : mods_okb t = true -> In (m, mi) (dt_mods t) -> mod_id_by_name (dt_mods t) (mi_name mi) = Some m.
+Proof.
+  intros Hm Hin. pose proof (mods_ok_entry _ _ _ Hm Hin) as MF.
+  pose proof (mod_id_by_name_rel (dt_mods t) (mi_name mi)) as R. rewrite (mf_byname _ _ _ MF) in R.
+  destruct (mod_id_by_name (dt_mods t) (mi_name mi)) as [m'|]; [|contradiction].
+  pose proof (mf_byns _ _ _ (mods_ok_entry _ _ _ Hm R)) as B. rewrite (mf_byns _ _ _ MF) in B. inversion B. reflexivity.
+Qed.
+
+Lemma metas_of_jobj_meta m : metas_of_jobj (map (fun kv : bytes * bytes => (fst kv, JVstr (snd kv))) m) = Some m.
+Proof. induction m as [|[k v] m IH]; [reflexivity|]. cbn [map metas_of_jobj fst snd]. rewrite IH. reflexivity. Qed.
+
+Lemma metas_of_jval_obj m : metas_of_jval (jmeta_obj m) = Some m.
+Proof. apply metas_of_jobj_meta. Qed.
+
+Lemma term_of_jval_term SV k v : jterm_ok SV k v -> term_of_jval k (jval_of_term k v) = Some v.
+Proof.
+  destruct k; cbn [jterm_ok jval_of_term term_of_jval].
+  - reflexivity.
+  - intros (_ & _ & Hne). destruct v; [contradiction|reflexivity].
+  - intros [->| ->]; reflexivity.
+  - intros ->. reflexivity.
+Qed.
+
+Fixpoint ungroup {A} (G : list (sid * list (dnode * A))) : list (dnode * A) :=
+  match G with [] => [] | g :: G' => snd g ++ ungroup G' end.
+
+Lemma ungroup_group_runs {A} (l : list (dnode * A)) : ungroup (group_runs l) = l.
+Proof.
+  induction l as [|x l IH]; [reflexivity|]. cbn [group_runs].
+  destruct (group_runs l) as [|[s run] gs] eqn:E; [cbn in IH |- *; rewrite <- IH; reflexivity|].
+  destruct (s =? d_sid (fst x)); cbn [ungroup snd app] in *; rewrite <- IH; reflexivity.
+Qed.
+
+Lemma clear_term s v d m : clear_dflt_node (DN s v d m []) = DN s v false m [].
+Proof. reflexivity. Qed.
+
+Section Conv.
+  Variable sch : schema.
+  Variable t : doctabs.
+  Variable jk : list (sid * jkind).
+  Variable SV : bytes -> Prop.
+  Hypothesis Htabs : tabs_okb sch t = true.
+
+  Let Hm : mods_okb t = true := Hmods sch t Htabs.
+  Let Hn : names_okb sch t = true := Hnames sch t Htabs.
+
+  Notation JD := (JDocN sch t jk SV).
+  Notation jval_of := (jnode_val sch t jk).
+  Notation cgo := (conv_go sch t jk (conv_obj sch t jk)).
+
+  Lemma resolve_mname p pm s i :
+    lookup sch s = Some i -> si_parent i = p -> resolve_member sch t p pm (mname t pm s) = Some s.
+  Proof.
+    intros Hl Hp. pose proof (names_ok_entry _ _ _ _ Hn Hl) as NF. destruct (nf_mod _ _ _ NF) as (mi & Hin & Emi).
+    pose proof (mods_ok_entry _ _ _ Hm Hin) as MF.
+    pose proof (nf_sid _ _ _ NF) as Hsid. unfold sget in Hsid at 1. rewrite Hl, Hp in Hsid.
+    unfold resolve_member, mname.
+    destruct (match pm with None => true | Some m => negb (m =? node_mod t s) end) eqn:Eq.
+    - rewrite Emi. rewrite <- app_assoc. cbn [app]. rewrite has_colon_app.
+      rewrite (split_colon_app _ _ (proj1 (ncname_ok_chars _ (mf_name _ _ _ MF)))).
+      rewrite (mod_id_by_name_ok t _ _ Hm Hin). exact Hsid.
+    - cbn [app]. rewrite (has_colon_ncname _ (nf_name _ _ _ NF)).
+      destruct pm as [m|]; [|discriminate Eq]. apply negb_false_iff, N.eqb_eq in Eq. subst m. exact Hsid.
+  Qed.
+
+  Definition key_head_ok (k : bytes) : Prop := exists c r, k = c :: r /\ c <> 64.
+  Definition tail_ok (tail : list (bytes * jval)) : Prop :=
+    match tail with (k2, _) :: _ => key_head_ok k2 | [] => True end.
+
+  Lemma mname_head pm s i : lookup sch s = Some i -> key_head_ok (mname t pm s).
+  Proof.
+    intro Hl. pose proof (names_ok_entry _ _ _ _ Hn Hl) as NF. destruct (nf_mod _ _ _ NF) as (mi & Hin & Emi).
+    pose proof (mods_ok_entry _ _ _ Hm Hin) as MF. unfold mname.
+    assert (Hh : forall nm r, ncname_ok nm = true -> key_head_ok (nm ++ r)).
+    { intros nm r H. destruct (ncname_first nm H) as (c & r' & -> & Hc). exists c, (r' ++ r). split; [reflexivity|].
+      unfold is_ncname_start, is_alpha in Hc. lia. }
+    destruct (match pm with None => true | Some m => negb (m =? node_mod t s) end).
+    - rewrite Emi, <- app_assoc. apply Hh, (mf_name _ _ _ MF).
+    - cbn [app]. rewrite <- (app_nil_r (node_name t s)). apply Hh, (nf_name _ _ _ NF).
+  Qed.
+
+  Lemma beq_key_head k2 nm : key_head_ok k2 -> beq_bytes k2 (64 :: nm) = false.
+  Proof.
+    intros (c & r & -> & Hc). cbn [beq_bytes]. apply N.eqb_neq in Hc. rewrite Hc. reflexivity.
+  Qed.
+
+  (* what the conversion needs to know of a sibling and the value it contributes *)
+  Definition Good (p : option sid) (x : dnode * jval) : Prop :=
+    Placed sch p (fst x) /\ JD (fst x) /\ snd x = jval_of (fst x) /\
+    (is_term sch (d_sid (fst x)) = false ->
+     conv_obj sch t jk (Some (d_sid (fst x))) (Some (node_mod t (d_sid (fst x)))) (snd x) =
+       Some (d_meta (fst x), clear_dflt (d_ch (fst x)))).
+
+  Definition clearl (run : list (dnode * jval)) : forest := map clear_dflt_node (map fst run).
+
+  Lemma Good_facts p x : Good p x ->
+    exists s v d m ch i, fst x = DN s v d m ch /\ lookup sch s = Some i /\ si_parent i = p /\
+      (is_term_kind (si_kind i) = true -> ch = []) /\ kind_of sch s = si_kind i /\
+      (if is_term_kind (si_kind i) then jterm_ok SV (jkind_of jk s) v else v = []) /\ si_kind i <> KAny.
+  Proof.
+    intros (HP & HD & _ & _). destruct (fst x) as [s v d m ch]. rewrite Placed_unfold in HP.
+    destruct HP as ((i & Hl & Hp & Ht) & _). rewrite JDocN_unfold in HD. destruct HD as (Hany & Hval & _).
+    exists s, v, d, m, ch, i. unfold is_term, kind_of, sget in *. rewrite Hl in *. repeat split; assumption.
+  Qed.
+
+  (* leaf-list: the values zipped with the metadata entries (or with none) *)
+  Lemma zip_run p sd run :
+    Forall (fun x => Good p x /\ d_sid (fst x) = sd) run -> kind_of sch sd = KLeafList ->
+    zip_leaflist jk sd (map snd run) (map meta_or_null run) = Some (clearl run) /\
+    (existsb has_meta run = false -> zip_leaflist jk sd (map snd run) [] = Some (clearl run)).
+  Proof.
+    intros Hall Hk. induction Hall as [|x run [Hx Hs] _ IH]; [split; reflexivity|].
+    destruct (Good_facts p x Hx) as (s & v & d & m & ch & i & Ex & Hl & Hp & Hterm & Ekind & Hval & Hany).
+    destruct Hx as (_ & _ & Ev & _). rewrite Ex in Hs, Ev. cbn [d_sid] in Hs. subst s.
+    rewrite Hk in Ekind. rewrite <- Ekind in *. cbn [is_term_kind] in *. specialize (Hterm eq_refl). subst ch.
+    rewrite jnode_val_unfold, Hk in Ev.
+    destruct IH as [IH1 IH2]. unfold clearl in *. cbn [map]. rewrite Ex. cbn [zip_leaflist tl].
+    rewrite Ev, (term_of_jval_term SV _ _ Hval). split.
+    - unfold meta_or_null at 1. rewrite Ex. cbn [fst d_meta].
+      assert (Em : metas_of_jval (match m with [] => JVnull | p0 :: l => jmeta_obj (p0 :: l) end) = Some m)
+        by (destruct m; [reflexivity|apply metas_of_jval_obj]).
+      rewrite Em, IH1. reflexivity.
+    - cbn [existsb]. intro He. apply orb_false_iff in He. destruct He as [He1 He2].
+      unfold has_meta in He1. rewrite Ex in He1. cbn [fst d_meta] in He1. destruct m; [|discriminate He1].
+      rewrite (IH2 He2). reflexivity.
+  Qed.
+
+  (* one run of siblings *)
+  Lemma conv_group p pm s run tail :
+    run <> [] -> Forall (fun x => Good p x /\ d_sid (fst x) = s) run -> tail_ok tail ->
+    cgo p pm (group_members sch t pm (s, run) ++ tail) =
+      match cgo p pm tail with Some f => Some (clearl run ++ f) | None => None end.
+  Proof.
+    intros Hne Hall Htail.
+    destruct run as [|x0 run0]; [contradiction|].
+    pose proof (Forall_inv Hall) as [Hx0 Hs0].
+    destruct (Good_facts p x0 Hx0) as (s0 & v0 & d0 & m0 & ch0 & i & Ex0 & Hl & Hp & _ & Ekind & _ & Hany).
+    rewrite Ex0 in Hs0. cbn [d_sid] in Hs0. subst s0.
+    pose proof (resolve_mname p pm s i Hl Hp) as Hres.
+    pose proof (mname_head pm s i Hl) as Hhead.
+    set (nm := mname t pm s) in *.
+    cbn [group_members]. fold nm. rewrite Ekind.
+    destruct (si_kind i) eqn:Ek; [| | | |exfalso; apply Hany; reflexivity].
+    - (* containers, one member each *)
+      clear Hne Ex0 Hx0. induction Hall as [|x run [Hx Hs] _ IH]; [cbn [map app clearl]; destruct (cgo p pm tail); reflexivity|].
+      destruct (Good_facts p x Hx) as (s1 & v & d & m & ch & i1 & Ex & Hl1 & _ & _ & Ekind1 & Hval & _).
+      rewrite Ex in Hs. cbn [d_sid] in Hs. subst s1. rewrite Hl in Hl1. inversion Hl1; subst i1. rewrite Ek in Hval. cbn [is_term_kind] in Hval. subst v.
+      destruct Hx as (_ & _ & _ & Hconv). rewrite Ex in Hconv. cbn [fst d_sid d_meta d_ch] in Hconv.
+      assert (Hnt : is_term sch s = false) by (unfold is_term; rewrite Ekind; reflexivity).
+      cbn [map app]. cbn [conv_go]. rewrite Hres. cbv zeta. rewrite Ekind. rewrite (Hconv Hnt), IH.
+      unfold clearl. cbn [map]. rewrite Ex. destruct (cgo p pm tail); reflexivity.
+    - (* leaves: the value member, then the metadata member when there is metadata *)
+      clear Hne Ex0 Hx0. induction Hall as [|x run [Hx Hs] _ IH]; [cbn [flat_map app clearl map]; destruct (cgo p pm tail); reflexivity|].
+      destruct (Good_facts p x Hx) as (s1 & v & d & m & ch & i1 & Ex & Hl1 & _ & Hterm & Ekind1 & Hval & _).
+      rewrite Ex in Hs. cbn [d_sid] in Hs. subst s1. rewrite Hl in Hl1. inversion Hl1; subst i1. rewrite Ek in Hval, Hterm. cbn [is_term_kind] in Hval, Hterm.
+      specialize (Hterm eq_refl). subst ch.
+      destruct Hx as (_ & _ & Ev & _). rewrite Ex in Ev. rewrite jnode_val_unfold, Ekind in Ev.
+      cbn [flat_map]. rewrite <- app_assoc. cbn [app]. cbn [conv_go]. rewrite Hres. cbv zeta. rewrite Ekind.
+      rewrite Ev, (term_of_jval_term SV _ _ Hval).
+      unfold has_meta at 1. rewrite Ex. cbn [fst d_meta].
+      assert (Hc : clearl (x :: run) = DN s v false m [] :: clearl run) by (unfold clearl; cbn [map]; rewrite Ex; reflexivity).
+      rewrite Hc. clear Hc.
+      set (rest := flat_map (fun x1 : dnode * jval =>
+                     (nm, snd x1) :: (if has_meta x1 then [(64 :: nm, jmeta_obj (d_meta (fst x1)))] else [])) run ++ tail) in *.
+      assert (Hrest : tail_ok rest).
+      { subst rest. destruct run as [|y run']; [exact Htail|]. cbn [flat_map app tail_ok]. exact Hhead. }
+      destruct m as [|kv m'].
+      + cbn [isnil negb app].
+        destruct rest as [|[k2 x2] r'] eqn:Er.
+        * cbn [conv_go] in IH. destruct (cgo p pm tail); inversion IH. cbn [app]. destruct (clearl run); [reflexivity|discriminate].
+        * cbn [tail_ok] in Hrest. rewrite (beq_key_head k2 nm Hrest).  Show. Abort. End Conv.
